@@ -44,6 +44,23 @@ func (rc resultContainer) value() interface{} {
 	return nil
 }
 
+// valueType is the type of the value the container holds.
+func (rc resultContainer) valueType() ast.ValueType {
+	switch {
+	case rc.IsBoolValue:
+		return ast.TBool
+	case rc.IsInt64Value:
+		return ast.TInt
+	case rc.IsFloat64Value:
+		return ast.TFloat
+	case rc.IsStringValue:
+		return ast.TString
+	case rc.IsDurationValue:
+		return ast.TDuration
+	}
+	return ast.InvalidType
+}
+
 // ErrSide wraps the error in the evaluation, we use this error to indicate the origin of the error
 // left side or right side
 type ErrSide struct {
@@ -174,7 +191,7 @@ func (e *EvalBinaryNode) EvalDuration(scope *Scope, executionState ExecutionStat
 		return result.DurationValue, nil
 	}
 
-	return 0, fmt.Errorf("expression returned unexpected type %T", result.value())
+	return 0, ErrTypeGuardFailed{RequestedType: ast.TDuration, ActualType: result.valueType()}
 }
 
 func (e *EvalBinaryNode) EvalString(scope *Scope, executionState ExecutionState) (string, error) {
@@ -187,7 +204,7 @@ func (e *EvalBinaryNode) EvalString(scope *Scope, executionState ExecutionState)
 		return result.StringValue, nil
 	}
 
-	return "", fmt.Errorf("expression returned unexpected type %T", result.value())
+	return "", ErrTypeGuardFailed{RequestedType: ast.TString, ActualType: result.valueType()}
 }
 
 // EvalBool executes the expression based on eval bool
@@ -221,11 +238,7 @@ func (e *EvalBinaryNode) EvalFloat(scope *Scope, executionState ExecutionState) 
 		return result.Float64Value, nil
 	}
 
-	if result.IsInt64Value {
-		return float64(0), ErrTypeGuardFailed{RequestedType: ast.TFloat, ActualType: ast.TInt}
-	}
-
-	return float64(0), ErrTypeGuardFailed{RequestedType: ast.TFloat, ActualType: e.constReturnType}
+	return float64(0), ErrTypeGuardFailed{RequestedType: ast.TFloat, ActualType: result.valueType()}
 }
 
 func (e *EvalBinaryNode) EvalInt(scope *Scope, executionState ExecutionState) (int64, error) {
@@ -238,11 +251,7 @@ func (e *EvalBinaryNode) EvalInt(scope *Scope, executionState ExecutionState) (i
 		return result.Int64Value, nil
 	}
 
-	if result.IsFloat64Value {
-		return int64(0), ErrTypeGuardFailed{RequestedType: ast.TInt, ActualType: ast.TFloat}
-	}
-
-	return int64(0), ErrTypeGuardFailed{RequestedType: ast.TInt, ActualType: e.constReturnType}
+	return int64(0), ErrTypeGuardFailed{RequestedType: ast.TInt, ActualType: result.valueType()}
 
 }
 
